@@ -15,6 +15,8 @@
 package event
 
 import (
+	"errors"
+
 	"github.com/emitter-io/emitter/internal/message"
 	"github.com/emitter-io/emitter/internal/security"
 	"github.com/kelindar/binary"
@@ -27,6 +29,9 @@ const (
 	typeBan
 	typeConn
 )
+
+// ErrInvalidKey is returned when the key of a replicated event can not be decoded.
+var errInvalidKey = errors.New("event: the key is not valid")
 
 // Event represents an encodable event that happened at some point in time.
 type Event interface {
@@ -81,6 +86,10 @@ func decodeSubscription(k string, v []byte) (e Subscription, err error) {
 
 	// Decode the key
 	buffer := binary.ToBytes(k)
+	if len(buffer) < 16 {
+		return e, errInvalidKey
+	}
+
 	e.Peer = binary.BigEndian.Uint64(buffer[0:8])
 	e.Conn = security.ID(binary.BigEndian.Uint64(buffer[8:16]))
 	e.Ssid = make(message.Ssid, (len(buffer)-16)/4)
@@ -158,6 +167,10 @@ func decodeConnection(k string, v []byte) (e Connection, err error) {
 
 	// Decode the key
 	buffer := binary.ToBytes(k)
+	if len(buffer) < 16 {
+		return e, errInvalidKey
+	}
+
 	e.Peer = binary.BigEndian.Uint64(buffer[0:8])
 	e.Conn = security.ID(binary.BigEndian.Uint64(buffer[8:16]))
 	return e, err
